@@ -72,7 +72,7 @@ func (r *c02hRec) factory(typ logical.BackendType) logical.Factory {
 					return nil, err
 				}
 				return &logical.Response{Data: map[string]any{"v": string(e.Value)}}, nil
-			case logical.CreateOperation, logical.UpdateOperation:
+			case logical.CreateOperation, logical.UpdateOperation, logical.PatchOperation:
 				return nil, req.Storage.Put(ctx, &logical.StorageEntry{Key: key, Value: []byte(fmt.Sprint(req.Data["v"]))})
 			case logical.DeleteOperation:
 				return nil, req.Storage.Delete(ctx, key)
@@ -101,7 +101,7 @@ func (r *c02hRec) factory(typ logical.BackendType) logical.Factory {
 			BackendType:  typ,
 			PathsSpecial: &logical.Paths{Unauthenticated: []string{"unauth/*"}, Root: []string{"root/*"}},
 			Paths: []*framework.Path{
-				{Pattern: "data/.*", Fields: none, ExistenceCheck: exists, Operations: ops(logical.ReadOperation, logical.CreateOperation, logical.UpdateOperation, logical.DeleteOperation, logical.ListOperation, logical.ScanOperation)},
+				{Pattern: "data/.*", Fields: none, ExistenceCheck: exists, Operations: ops(logical.ReadOperation, logical.CreateOperation, logical.UpdateOperation, logical.PatchOperation, logical.DeleteOperation, logical.ListOperation, logical.ScanOperation)},
 				{Pattern: "unauth/.*", Fields: none, Operations: ops(logical.ReadOperation, logical.UpdateOperation)},
 				{Pattern: "root/.*", Fields: none, Operations: ops(logical.ReadOperation, logical.UpdateOperation, logical.DeleteOperation, logical.ListOperation)},
 			},
@@ -491,6 +491,9 @@ func TestVerif_C02H_HTTP(t *testing.T) {
 	r.Require("refused:early:relative-path", int64(ntopo*3))
 	r.Require("unauth_handled", int64(ntopo*2))
 	r.Require("bearer_authorised", int64(ntopo*3))
+	r.Require("http_refused_for_parameter_constraints:PATCH", int64(ntopo*6))
+	r.Require("http_refused_for_parameter_constraints:POST", int64(ntopo*6))
+	r.Require("http_served_within_parameter_constraints:PATCH", int64(ntopo*2))
 }
 
 func c02hTopology(t *testing.T, r *kit.Result, rng *kit.Rand, caseID string, nreq int) {
@@ -711,6 +714,114 @@ func c02hTopology(t *testing.T, r *kit.Result, rng *kit.Rand, caseID string, nre
 			return
 		}
 	}
+	x.paramBlock(rng)
+}
+
+// paramBlock: parameter constraints over HTTP: POST/PUT (update) and PATCH with
+// application/merge-patch+json (patch) with bodies that satisfy / violate required_parameters,
+// denied_parameters and allowed_parameters of the stanza; the constraints bind PATCH like POST.
+func (x *c02hRun) paramBlock(rng *kit.Rand) bool {
+	r := x.r
+	ns := kit.Pick(rng, x.w.NSs)
+	var m *c02hMount
+	for _, c := range x.w.Mounts {
+		if strings.HasPrefix(c.Abs, ns) && !strings.Contains(c.Abs, "auth/") && (m == nil || rng.Chance(1, 2)) {
+			m = c
+		}
+	}
+	if m == nil {
+		return true
+	}
+	rel := m.Abs[len(ns):]
+	pol := fmt.Sprintf(`path "%sdata/pc/*" {
+  capabilities = ["create","read","update","patch"]
+  denied_parameters = { "owner" = [] "tier" = ["gold"] }
+  required_parameters = ["ticket"]
+}
+path "%sdata/pa/*" {
+  capabilities = ["create","update","patch"]
+  allowed_parameters = { "note" = [] }
+}`, rel, rel)
+	x.must("POST", "sys/policies/acl/hparams", ns, map[string]any{"policy": pol})
+	tok := x.token("params", "live", ns, nil, []string{"hparams"}, nil)
+	bodies := []struct {
+		json   string
+		pc, pa bool
+	}{
+		{`{"ticket":"1","v":"a"}`, true, false},
+		{`{"v":"a"}`, false, false},
+		{`{"ticket":"1","owner":"me"}`, false, false},
+		{`{"ticket":"1","tier":"gold"}`, false, false},
+		{`{"ticket":"1","tier":"silver"}`, true, false},
+		{`{"note":"n"}`, false, true},
+		{`{"note":"n","extra":"e"}`, false, false},
+		{`{}`, false, true},
+	}
+	send := func(method, path, token, ctype, body string) (int, int, bool) {
+		req, err := nethttp.NewRequest(method, x.addr+"/v1/"+path, strings.NewReader(body))
+		if err != nil {
+			x.t.Fatalf("verif: %v", err)
+		}
+		req.Header.Set("X-Vault-Token", token)
+		if ns != "" {
+			req.Header.Set("X-Vault-Namespace", ns)
+		}
+		if ctype != "" {
+			req.Header.Set("Content-Type", ctype)
+		}
+		resp, err := x.client.Do(req)
+		if err != nil {
+			x.t.Fatalf("verif: http: %v", err)
+		}
+		io.Copy(io.Discard, resp.Body)
+		resp.Body.Close()
+		h := len(x.rec.take())
+		d := x.storageDigest()
+		changed := d != x.digest
+		x.digest = d
+		return resp.StatusCode, h, changed
+	}
+	n := 0
+	for _, area := range []string{"pc", "pa"} {
+		for bi, b := range bodies {
+			for _, method := range []string{"POST", "PATCH"} {
+				n++
+				path := fmt.Sprintf("%sdata/%s/k%d", rel, area, n)
+				ctype := ""
+				if method == "PATCH" {
+					ctype = "application/merge-patch+json"
+					send("POST", path, x.root, "", `{"seed":"s"}`) // the key exists
+				}
+				want := b.pc
+				if area == "pa" {
+					want = b.pa
+				}
+				status, handlers, changed := send(method, path, tok.ID, ctype, b.json)
+				r.Eval(1)
+				x.steps = append(x.steps, fmt.Sprintf("params %s %s%s %s -> want allowed=%v / %d h=%d changed=%v", method, ns, path, b.json, want, status, handlers, changed))
+				if want {
+					if status/100 == 2 && handlers == 1 {
+						r.Count("http_served_within_parameter_constraints:"+method, 1)
+					} else {
+						r.Count("http_declined_within_parameter_constraints:"+method, 1)
+					}
+					continue
+				}
+				r.Count("http_refused_for_parameter_constraints:"+method, 1)
+				r.Nontrivial(fmt.Sprintf("params|%s|%s|%d", method, area, bi))
+				if status/100 == 2 || handlers > 0 || changed {
+					class := "C02-request-served-against-parameter-constraints"
+					if method == "PATCH" {
+						class = "C02-patch-request-served-against-parameter-constraints"
+					}
+					r.Violate(class, x.caseID, fmt.Sprintf("[%s] HTTP %s /v1/%s (namespace %q) with body %s violates the parameter constraints of its stanza and was served: status %d, %d handler event(s), storage changed %v", x.caseID, method, path, ns, b.json, status, handlers, changed),
+						map[string]any{"policy": pol, "method": method, "path": path, "namespace": ns, "body": b.json, "status": status, "handlers": handlers, "recent": x.steps})
+					return false
+				}
+			}
+		}
+	}
+	return true
 }
 
 func (x *c02hRun) one(q *c02hReq, tok *c02hTok) bool {
